@@ -13,8 +13,8 @@ from ..oracles import globalarr as ga
 PROPERTY = "C01"
 HANG_SECONDS = 60.0
 LINE_BUDGET = 1000000000
-RULE = ("Hypothesis-generated LayoutHandler configurations (ndims 2-4, extents 1-9 biased to n=p, p+1, "
-        "2p+-1, process grids of length 1-3 incl. leading 1, layout sets connected by construction or "
+RULE = ("Hypothesis-generated LayoutHandler configurations (ndims 2-4, extents 1-9 biased to n=p, p+1, 2p+-1 and, in 1 case of 6, one dimension with fewer points than processes, "
+        "process grids of length 1-3 incl. leading 1, layout sets connected by construction or "
         "arbitrary subsets of S_n, float/complex/int payload = injective code of the global index, "
         "sentinel-filled buffers of exactly bufferSize) with lists of transposes (independent or "
         "chained, with/without spare buffer) run on a simulated MPI world under a generated schedule; "
@@ -55,6 +55,8 @@ def cases(draw, tier):
     nm = draw(gen.names(len(perms)))
     mins = gen.min_extents(ndims, nprocs, perms)
     shape = draw(gen.extents(mins))
+    # fewer points than processes along a distributed direction (some ranks own an empty block), 1 case in 6
+    shape = draw(gen.maybe_short(shape, mins))
     dtype = draw(st.sampled_from(["float64", "float64", "complex128", "int64"]))
     nl = len(perms)
     ops = draw(st.lists(st.tuples(st.integers(0, nl - 1), st.integers(0, max(nl - 2, 0)), st.booleans(),
@@ -187,6 +189,8 @@ def predicate(case):
     labels = sorted(set(labels))
     if uneven:
         labels.append("uneven")
+    if any(shape[perm[i]] < p for perm in perms for i, p in enumerate(nprocs)):
+        labels.append("empty-blocks")
     if nprocs[0] == 1 and P > 1:
         labels.append("nprocs0==1")
     labels.append("P=%d" % P)
